@@ -7,6 +7,7 @@ import (
 	"fmt"
 	"reflect"
 	"runtime"
+	"sync"
 
 	"github.com/hashicorp/go-argmapper/internal/graph"
 )
@@ -81,6 +82,10 @@ type Func struct {
 	name       string
 	once       bool
 	onceResult *Result
+
+	// onceMu guards onceResult. It is allocated only for FuncOnce functions
+	// and is shared by copies of the Func (see copy).
+	onceMu *sync.Mutex
 }
 
 // MustFunc can be called around NewFunc in order to force success and
@@ -132,14 +137,30 @@ func NewFunc(f interface{}, opts ...Arg) (*Func, error) {
 		return nil, err
 	}
 
-	return &Func{
+	result := &Func{
 		fn:       fv,
 		input:    inTyp,
 		output:   outTyp,
 		callOpts: opts,
 		name:     args.funcName,
 		once:     args.funcOnce,
-	}, nil
+	}
+	if result.once {
+		result.onceMu = new(sync.Mutex)
+	}
+
+	return result, nil
+}
+
+// copy returns a shallow copy of f. For a FuncOnce function the memoized
+// result is read under its lock.
+func (f *Func) copy() Func {
+	if f.once {
+		f.onceMu.Lock()
+		defer f.onceMu.Unlock()
+	}
+
+	return *f
 }
 
 // NewFuncList initializes multiple Funcs at once. This is the same as
